@@ -594,6 +594,7 @@ type outcome struct {
 	half        []string // known shape sigHalfClosed
 	neverClosed int      // streams ended by the server that the client never ended nor reset
 	neverOther  int      // ... of which the client had NOT queued its own END_STREAM (not the known shape)
+	blockedEnd  map[uint32]bool
 	classes     map[string]bool
 	setupErr    error
 	nCalls      int
@@ -698,6 +699,7 @@ func runPlan(t *testing.T, p Plan) (out outcome) {
 		out.bad = e.bad
 		out.led = e.led.Violations("stream.id", "stream.maxconcurrent")
 		out.half = e.led.Violations("stream.halfclosed_over_limit")
+		out.blockedEnd = e.blockedEnd
 		// Streams the server ended and the client never ended nor reset, up to
 		// and including the transport's shutdown.
 		for _, st := range e.led.Streams() {
@@ -782,11 +784,44 @@ func runUnit(t *testing.T, p Plan, tokenRace bool) vk.Result {
 		// the client later on either.
 		// ... and that the client had queued its own END_STREAM on every one of them (the listed finding is about
 		// exactly that shape; a stream the client never half-closed and never reset is a different violation).
-		// (A narrower rule — withhold the signature when such a stream was one the client had NOT half-closed and had
-		// a quiescent chance to reset, counted in neverOther — was tried in session 2 and withdrawn: in the thorough
-		// tier it fired on the unchanged tree for server-ended streams on a draining transport, which could not be
-		// told apart from the listed shape in the time available. neverOther is reported in the message only.)
-		if out.neverClosed > 0 {
+		// The listed finding is about streams on which the CLIENT'S OWN END_STREAM was queued behind flow control
+		// when the server ended them. The ledger names the streams that make up the excess ("dangling ids"): the
+		// signature is given only if every one of them was finished by the plan in that way (howBlockedEnd); an
+		// excess containing a stream the client never half-closed (e.g. one the server ended with a rejected final
+		// HEADERS frame) is a different violation and is reported as such.
+		// A dangling stream that is merely in flight (the client has not yet processed the server's END_STREAM) is
+		// counted as open by the client too, so it cannot cause an excess; only streams whose slot the client has
+		// freed can. Hence: the signature is given iff the streams of the known shape alone explain the excess
+		// (open - limit <= number of dangling streams finished with howBlockedEnd).
+		onlyKnownShape := out.neverClosed > 0
+		for _, msg := range out.half {
+			var sid, open, limit int
+			k := strings.Index(msg, "HEADERS opens stream ")
+			i := strings.Index(msg, "[dangling ids: ")
+			if k < 0 || i < 0 {
+				onlyKnownShape = false
+				break
+			}
+			if _, err := fmt.Sscanf(msg[k:], "HEADERS opens stream %d: %d streams open > MAX_CONCURRENT_STREAMS %d", &sid, &open, &limit); err != nil {
+				onlyKnownShape = false
+				break
+			}
+			rest := msg[i+len("[dangling ids: "):]
+			if j := strings.Index(rest, "]"); j >= 0 {
+				rest = rest[:j]
+			}
+			known := 0
+			for _, f := range strings.Fields(rest) {
+				var id uint32
+				if _, err := fmt.Sscan(f, &id); err == nil && out.blockedEnd[id] {
+					known++
+				}
+			}
+			if open-limit > known {
+				onlyKnownShape = false
+			}
+		}
+		if onlyKnownShape {
 			r.Sig = sigHalfClosed
 		}
 		return r
